@@ -159,9 +159,8 @@ AcquireSem(i) ==
     /\ last' = [act |-> "AcquireSem", i |-> i]
 
 \* t = the value of `tasks` the code read under notifyMu
-DecideT(i, t) ==
+DecideRead(i, t) ==
     /\ pc[i] = "decide"
-    /\ t = prio
     /\ seen' = [seen EXCEPT ![i] = epoch]
     /\ IF t > 0 /\ RecheckUnderLock
        THEN /\ Goto(i, "relretry") /\ UNCHANGED bodies
@@ -169,6 +168,8 @@ DecideT(i, t) ==
             /\ bodies' = [bodies EXCEPT ![i] = Append(@, [st |-> "spawned", cx |-> FALSE])]
     /\ UNCHANGED <<prio, epoch, sem, active, ndo, dg>>
     /\ last' = [act |-> "Decide", i |-> i, tasks |-> t, start |-> ~(t > 0 /\ RecheckUnderLock)]
+\* the read is atomic with respect to Do (notifyMu); here also with respect to the lock-free decrement
+DecideT(i, t) == t = prio /\ DecideRead(i, t)
 Decide(i) == DecideT(i, prio)
 
 SelNotify(i) ==
